@@ -368,6 +368,9 @@ compare_images(const std::vector<float>& a, const std::vector<float>& b, double 
 }
 
 #ifndef SIM_OMP
+void run_lm_comparisons(const Plan& p, sim::Result& res, LmProblem& pr, const shared_ptr<LmObj>& lobj, const shared_ptr<rc::objective_type>& pobj,
+                        const long cache_size, const std::string& dir, const HistOpts& o);
+
 void
 run_lm_gradient(const Plan& p, sim::Result& res)
 {
@@ -408,8 +411,63 @@ run_lm_gradient(const Plan& p, sim::Result& res)
   const long cache_size = p.c("cache_size", 0);
   shared_ptr<lm::SimListModeData> src(new lm::SimListModeData(pr.w.scanner_pdi, pr.w.script, pr.w.has_delayeds));
   shared_ptr<LmObj> lobj = make_lm_objective(pr, src, cache_size, dir, true);
-  if (lobj->set_up(pr.lambda) != Succeeded::yes)
+  const bool write_error_class = !p.ops.empty() && p.ops[0].kind == "lm_cache_write_error" && cache_size > 0;
+  if (write_error_class)
+    {
+      // the disk fills up (or fails) while the event cache is written: the set-up has to report it, or at least every
+      // later request has to, or the results have to be right all the same -- never silently the gradient of fewer events
+      res.cls = "lm_cache_write_error";
+      std::vector<sim::Fault> faults(1);
+      faults[0].kind = "W_ERR";
+      faults[0].at = p.ops[0].arg(0) % 4;
+      faults[0].a = p.ops[0].arg(1) % 2 ? 28 /*ENOSPC*/ : 5 /*EIO*/;
+      faults[0].b = p.ops[0].arg(2) % 2; // with / without a partial write before the error
+      bool reported = false;
+      try
+        {
+          sim::io::Armed armed(faults);
+          if (lobj->set_up(pr.lambda) != Succeeded::yes)
+            reported = true;
+        }
+      catch (const sim::Violation&)
+        {
+          throw;
+        }
+      catch (...)
+        {
+          reported = true;
+        }
+      if (reported)
+        {
+          sim::probe("cache_write_error_reported_by_set_up");
+          return;
+        }
+    }
+  else if (lobj->set_up(pr.lambda) != Succeeded::yes)
     sim::fail("lm_gradient:set_up_failed", "set_up of the list-mode objective function reports failure");
+  try
+    {
+      run_lm_comparisons(p, res, pr, lobj, pobj, cache_size, dir, o);
+    }
+  catch (const sim::Violation& v)
+    {
+      if (write_error_class)
+        sim::fail("lm_cache:write_error_not_reported", "a write error while the event cache was written went unreported and later: %s", v.detail.c_str());
+      throw;
+    }
+  catch (const std::exception& e)
+    {
+      if (!write_error_class)
+        throw;
+      sim::probe("cache_write_error_reported_later"); // e.g. the cache file cannot be found / read when it is needed
+    }
+}
+
+void
+run_lm_comparisons(const Plan& p, sim::Result& res, LmProblem& pr, const shared_ptr<LmObj>& lobj, const shared_ptr<rc::objective_type>& pobj,
+                   const long cache_size, const std::string& dir, const HistOpts& o)
+{
+  (void)res;
   shared_ptr<target_type> g1(pr.lambda->get_empty_copy()), g2(pr.lambda->get_empty_copy());
   if (getenv("SIMRT_TRACE"))
     {
@@ -620,7 +678,7 @@ run(const Plan& p, sim::Result& res)
 #ifdef SIM_OMP
   run_lm_threads(p, res);
 #else
-  if (!p.ops.empty() && p.ops[0].kind == "lm_gradient")
+  if (!p.ops.empty() && (p.ops[0].kind == "lm_gradient" || p.ops[0].kind == "lm_cache_write_error"))
     run_lm_gradient(p, res);
   else
     run_histogram(p, res);
@@ -667,8 +725,10 @@ gen(uint64_t seed, const std::string& tier, long idx)
     p.cfg["pct_d"] = r.range(2, 4);
   (void)idx;
 #else
-  static const char* cls[] = { "histogram", "histogram", "eof", "cutoff", "lm_gradient", "lm_gradient" };
-  o.kind = cls[idx % 6];
+  static const char* cls[] = { "histogram", "histogram", "eof", "cutoff", "lm_gradient", "lm_gradient", "lm_cache_write_error" };
+  o.kind = cls[idx % 7];
+  for (int j = 0; j < 3; ++j)
+    o.a.push_back((long)r.below(1000));
   p.cfg["span"] = r.chance(0.3) ? 3 : 1;
   p.cfg["view_mash"] = r.chance(0.25) ? 2 : 1;
   p.cfg["ntang"] = r.range(3, p.cfg["ndet"] / 2 + 1);
@@ -689,8 +749,10 @@ gen(uint64_t seed, const std::string& tier, long idx)
   p.cfg["frame_from_zero"] = r.chance(0.5);
   p.cfg["cache_size"] = r.chance(0.35) ? 0 : r.range(3, 80);
   p.cfg["reuse_cache"] = r.chance(0.5);
-  if (o.kind == std::string("lm_gradient"))
+  if (o.kind == std::string("lm_gradient") || o.kind == std::string("lm_cache_write_error"))
     p.cfg["ndet"] = 8 * r.range(1, 2);
+  if (o.kind == std::string("lm_cache_write_error"))
+    p.cfg["cache_size"] = r.range(3, 80);
 #endif
   p.ops.push_back(o);
   return p;
